@@ -566,10 +566,11 @@ class ConcatInfo:
             patterns=[src(off(i) + k)]))
 
 
-def concat_larr(st, L):
+def register_segmap(st, info):
+    """np.concatenate(list of arrays) and np.repeat(a, reps) both lay out
+    consecutive segments; the index maps (source segment, offset) are a function
+    of the segment lengths only (numpy fact, conformance-tested)"""
     infos = st.ghost.get('concatinfo', [])
-    info = ConcatInfo(st, L)
-    # numpy fact: index maps of a concatenation are a function of the lengths
     for other in infos:
         same = z3.And(other.n == info.n, forall_idx(
             info.n, lambda i: other.alen(i) == info.alen(i)))
@@ -579,6 +580,11 @@ def concat_larr(st, L):
             z3.ForAll([j], z3.And(other.src(j) == info.src(j),
                                   other.off(j) == info.off(j))))))
     st.ghost['concatinfo'] = infos + [info]
+
+
+def concat_larr(st, L):
+    info = ConcatInfo(st, L)
+    register_segmap(st, info)
     res = Arr(info.tot, lambda j: L.at(info.src(j), j - info.off(info.src(j))),
               L.k)
     return res, info
